@@ -8,9 +8,15 @@ pub mod c07;
 pub mod c08;
 pub mod c09;
 pub mod c10;
+pub mod c11;
+pub mod c12;
 pub mod c13;
 pub mod c14;
 pub mod c15;
+pub mod c16;
+pub mod c17;
+pub mod c18;
+pub mod c19;
 pub mod c20;
 
 pub fn run(prop: &str, tier: &str) -> i32 {
@@ -25,9 +31,15 @@ pub fn run(prop: &str, tier: &str) -> i32 {
         "C08" => c08::run(tier),
         "C09" => c09::run(tier),
         "C10" => c10::run(tier),
+        "C11" => c11::run(tier),
+        "C12" => c12::run(tier),
         "C13" => c13::run(tier),
         "C14" => c14::run(tier),
         "C15" => c15::run(tier),
+        "C16" => c16::run(tier),
+        "C17" => c17::run(tier),
+        "C18" => c18::run(tier),
+        "C19" => c19::run(tier),
         "C20" => c20::run(tier),
         _ => {
             eprintln!("unknown property {}", prop);
